@@ -176,6 +176,7 @@ type harnessState struct {
 	gates      map[string]chan struct{}
 	started    bool
 	runStarted bool
+	runStartedAt time.Time
 	runDone    bool // Run returned or panicked
 	sendersOn  bool
 	sendDone   []bool
